@@ -148,10 +148,10 @@ pub fn adversarial_program(reps: usize) -> (Vec<Sym>, usize) {
     rep(&mut p, Sym::M(256 + 1, 18)); // slot 16 (010000)
     // B1: length coder: high tree of the target length 273 (symbol 255), deepest node first; matches use slot 16
     for hs in [254u32, 252, 248, 240, 224, 192, 128, 0] {
-        rep(&mut p, Sym::M(300, hs + 18));
+        rep(&mut p, Sym::M(289, hs + 18)); // dist-1 = 288: slot 16, align 0000
     }
-    rep(&mut p, Sym::M(300, 10)); // choice2 -> 0
-    rep(&mut p, Sym::M(300, 5)); // choice -> 0
+    rep(&mut p, Sym::M(289, 10)); // choice2 -> 0
+    rep(&mut p, Sym::M(289, 5)); // choice -> 0
     // A: is_rep[state 0] -> 1 : rep matches in state 0 (three literals bring the state back to 0)
     for _ in 0..reps {
         p.extend([Sym::L(1), Sym::L(2), Sym::L(3), Sym::R(0, 2)]);
